@@ -319,7 +319,7 @@ def _run(ctx):
     translators(ctx)
     if not ctx.quick():
         rc, out = C.run(["coqchk", "-silent", "-o", "-Q", os.path.join(C.COQ, "theories"), "Pq", "Pq.Proofs.CompactProofs", "Pq.Proofs.CThriftMain",
-                         "Pq.Proofs.CThriftReser", "Pq.Proofs.CThriftTypedProofs"], timeout=1500, cwd=C.COQ)
+                         "Pq.Proofs.CThriftReser", "Pq.Proofs.CThriftTypedProofs", "Pq.Proofs.CThriftRepaired", "Pq.Proofs.CThriftTotal"], timeout=1500, cwd=C.COQ)
         ctx.obligation("coqchk -o on the C10 proof libraries: re-checked by the standalone checker, Axioms: <none>",
                        rc == 0 and "* Axioms: <none>" in out, out[-1500:])
         ctx.checker_cmds.append("coqchk -silent -o -Q coq/theories Pq Pq.Proofs.{CompactProofs,CThriftMain,CThriftReser,CThriftTypedProofs}")
@@ -347,7 +347,9 @@ def _run(ctx):
         stream_dict_eq(ctx, pq, w)
         stream_boundary(ctx, pq, root, enums, structs)
         stream_known(ctx, pq, root, enums, structs, specs_names)
+        stream_index(ctx, pq, root, enums, structs, specs_names)
         stream_files(ctx, pq)
+        stream_edits(ctx, pq)
     finally:
         w.close()
         pq.close()
@@ -373,14 +375,16 @@ def call(w, op, payload, timeout=120):
 def translators(ctx):
     """the three regenerated tables of DESIGN 4.1, each failing closed on its own (-> recorded as translator_fallback;
     the hand model + correspondences + the strict IDL parse of real footers remain)"""
-    from translators import idl2coq, specs2coq, callsites2coq
+    from translators import idl2coq, specs2coq, callsites2coq, enums2coq
     gen = ctx.gen_dir
     q = [(gen, "PqGen")]
     fp = os.path.join(C.REPO, "fastparquet")
     jobs = [
         ("idl2coq", "GenIdl.v", lambda: idl2coq.translate(os.path.join(fp, "parquet.thrift"), name="table"), "GenIdlProofs.v"),
         ("specs2coq", "GenSpecs.v", lambda: specs2coq.translate(os.path.join(fp, "cencoding.pyx")), "GenSpecsProofs.v"),
-        ("callsites2coq", "GenCallsites.v", lambda: callsites2coq.translate([os.path.join(fp, f) for f in ("writer.py", "util.py", "api.py")]),
+        ("enums2coq", "GenEnums.v", lambda: enums2coq.translate(os.path.join(fp, "parquet_thrift", "parquet", "ttypes.py")), "GenEnumsProofs.v"),
+        ("callsites2coq", "GenCallsites.v", lambda: callsites2coq.translate([os.path.join(fp, f) for f in ("writer.py", "util.py", "api.py")],
+                                                                           enum_paths=sorted(os.path.join(fp, f) for f in os.listdir(fp) if f.endswith(".py"))),
          "GenCallsitesProofs.v"),
     ]
     for name, out, fn, proofs in jobs:
@@ -931,6 +935,18 @@ def check_written(fd, scratch, pq, tag):
         counts["footer"] += 1
         if sym(r[0]) != "ok" or r[2] != 0:
             problems.append(("FileMetaData", os.path.basename(fn), "footer is not a conformant FileMetaData: %s at field path %r" % (sym(r[0]), T.canon(r)[1:2])))
+        else:
+            # the codec the caller named is written as the IDL's constant of that name
+            from harness import c10_edits as E
+            want = ENUMS["CompressionCodec"][(fd["compression"] or "UNCOMPRESSED").upper()]
+            tree = E.dec(r[1])
+            for rg in (E.get(tree, 4) or ["l", 0, []])[2]:
+                for cc in E.get(rg, 1)[2]:
+                    cmd = E.get(cc, 3)
+                    if cmd is not None and E.get(cmd, 4)[1] != want:
+                        problems.append(("FileMetaData", os.path.basename(fn), "ColumnMetaData.codec is %r, the IDL value of %s is %d" % (
+                            E.get(cmd, 4)[1], fd["compression"], want)))
+                        break
         if os.path.basename(fn) in ("_metadata", "_common_metadata"):
             continue
         fmd = fastparquet.cencoding.from_buffer(footer, "FileMetaData")
@@ -946,8 +962,12 @@ def check_written(fd, scratch, pq, tag):
     return problems, counts
 
 
+ENUMS = {}
+
+
 def stream_files(ctx, pq):
     C.use_shadow()
+    ENUMS.update(T.load_idl()[0])
     rng = ctx.rng
     n = 8 if ctx.quick() else 80
     for i in range(n):
@@ -962,6 +982,100 @@ def stream_files(ctx, pq):
             ctx.fail({"component": "writer-call-sites", "kind": "idl-nonconformant", "struct": struct}, dict(case, where=fn), msg)
 
 
+INDEX_ROOTS = ["ColumnIndex", "OffsetIndex", "PageLocation", "BloomFilterHeader", "SortingColumn", "PageEncodingStats",
+               "ColumnCryptoMetaData", "EncryptionAlgorithm", "FileCryptoMetaData"]
+
+
+def stream_index(ctx, pq, root, enums, structs, specs_names):
+    """the IDL structs outside the property's own list (page index, bloom filter, crypto): same oracles on raw int-keyed dicts with
+    IDL-consistent markers and on specification-encoded bytes; each case in its own subprocess when it holds a list<bool> (read_list
+    parses those as structs).  Failures are classified by the list element types involved (open findings, all in .pyx)."""
+    rng = ctx.rng
+    n = 90 if ctx.quick() else 900
+    g = Gen(rng, enums, structs, specs_names, "wide")
+    w = T.Worker(root, ctx.scratch)
+    try:
+        fixed = [
+            ("struct", "ColumnIndex", [(5, "null_counts", ("list", "FI64"), ("list", "FI64", [("i64", 0), ("i64", 7), ("i64", 2 ** 40)]))]),
+            ("struct", "ColumnIndex", [(5, "null_counts", ("list", "FI64"), ("list", "FI64", [("i64", 0), ("i64", 7)]))]),
+            ("struct", "ColumnIndex", [(2, "min_values", ("list", "FBinary"), ("list", "FBinary", [("bin", b"\x00\xff\xfe"), ("bin", b"a")])),
+                                       (3, "max_values", ("list", "FBinary"), ("list", "FBinary", [("bin", b"\x80"), ("bin", b"b")]))]),
+            ("struct", "ColumnIndex", [(2, "min_values", ("list", "FBinary"), ("list", "FBinary", [("bin", b"abc"), ("bin", "é".encode())]))]),
+        ]
+        for i in range(n + len(fixed)):
+            g.budget = 0
+            tr = fixed[i] if i < len(fixed) else g.struct(INDEX_ROOTS[i % len(INDEX_ROOTS)], 0, rng.choice([(1, 2, 3), (1, 15), (2, 16)]))
+            lb = has(tr, lambda t: t[0] == "list" and t[1] == "FBool" and t[2])
+            l64 = has(tr, lambda t: t[0] == "list" and t[1] == "FI64" and t[2])
+            lbin = has(tr, lambda t: t[0] == "list" and t[1] == "FBinary" and t[2])
+            small = has(tr, lambda t: t[0] in ("i8", "i16"))
+            case = {"stream": "index-structs", "root": tr[1], "tree": tree_json(tr)}
+            ctx.case(case, trivial=(not tr[2]))
+            ctx.count("index.root", tr[1])
+            ctx.count("index.lists", "+".join(k for k, v in (("bool", lb), ("i64", l64), ("binary", lbin)) if v) or "none")
+            enc = pq.call("thrift_enc", to_tv(tr))
+            if sym(enc[0]) != "ok":
+                continue
+            b0 = bytes(enc[1])
+            raw = to_raw(tr)
+            # ---- write side: to_bytes of the IDL-typed object must be the specification's bytes
+            r = (one_shot(root, ctx.scratch, "to_bytes", ("KeyValue", raw)) if lb else w.call("to_bytes", ("KeyValue", raw)))
+            m = pq.call("c_to_bytes", CAP, T.pv(raw))
+            want = ["ok", "#" + r[1].hex()] if r[0] == "ok" else (["exc"] if r[0] == "exc" else list(r[:2]))
+            ctx.correspondence("to_bytes(index/bloom/crypto structs) ~ impl model c_to_bytes (bytes or exception)", case, canon_out(m), want)
+            if r[0] != "ok" or r[1] != b0:
+                kind = "list-bool" if lb else ("list-i64-as-i32" if l64 else ("i8-i16-as-i32-i64" if small else
+                       ("empty-list-element-type" if has(tr, lambda t: t[0] == "list" and not t[2]) else "wrong-bytes")))
+                comp = "write_thrift" if kind == "i8-i16-as-i32-i64" else "write_list"
+                ctx.fail({"component": comp, "kind": kind, "stream": "index-structs", "root": tr[1]}, case,
+                         "to_bytes of the IDL-typed object is not the specification's encoding (%s)" % (r[0] if r[0] != "ok" else "%d vs %d bytes" % (len(r[1]), len(b0))))
+            # ---- read side: parse the specification's bytes and serialise again
+            r2 = (one_shot(root, ctx.scratch, "reserialise", ("KeyValue", b0), timeout=60) if lb else w.call("reserialise", ("KeyValue", b0), 60))
+            ok2 = r2[0] == "ok" and r2[1][3] == b0 and not r2[1][2]
+            nonutf8 = has(tr, lambda t: t[0] == "list" and t[1] == "FBinary" and any(not _utf8(x[1]) for x in t[2]))
+            if not lb and not nonutf8 and r2[0] == "ok":      # UTF-8 decoding with errors="ignore" is outside the model
+                m2 = pq.call("c_from_buffer", b0)
+                ctx.correspondence("from_buffer(index/bloom/crypto structs, spec-encoded) ~ impl model c_from_buffer", case, T.canon(m2),
+                                   ["ok", T.canon(T.pv(r2[1][0])), len(b0) - r2[1][1]])
+            if not ok2:
+                kind = "list-bool" if lb else ("list-i64-as-i32" if l64 else ("list-binary-as-str" if nonutf8 else
+                       ("i8-i16-as-i32-i64" if small else ("empty-list-element-type" if has(tr, lambda t: t[0] == "list" and not t[2]) else "bytes-differ"))))
+                comp = "read_list" if kind in ("list-bool", "list-binary-as-str") else ("write_thrift" if kind == "i8-i16-as-i32-i64" else "write_list")
+                ctx.fail({"component": comp, "kind": kind, "stream": "index-structs", "root": tr[1], "outcome": r2[0]}, case,
+                         "from_buffer + to_bytes of specification-encoded bytes does not give them back (%s)" % (r2[0],))
+    finally:
+        w.close()
+
+
+def _utf8(b):
+    try:
+        b.decode("utf-8")
+        return True
+    except UnicodeDecodeError:
+        return False
+
+
+def stream_edits(ctx, pq):
+    """metadata edit paths on foreign-style footers (harness/c10_edits.py)"""
+    from harness import c10_edits as E
+    C.use_shadow()
+    rng = ctx.rng
+    n = 42 if ctx.quick() else 420
+    for i in range(n):
+        case = E.gen_case(rng)
+        case["edit"] = E.EDITS[i % len(E.EDITS)]
+        problems, info = E.run_case(case, ctx.scratch, pq, "e%d" % i)
+        ctx.case({"stream": "edits", "edit_case": case})
+        ctx.count("edits.path", case["edit"])
+        ctx.count("edits.repeated_keys", sum(1 for k, v, w in case["decor"]["kv"] if k == "hist"))
+        if problems:
+            d = case["decor"]
+            cls = {"component": "metadata-edit", "path": case["edit"], "kind": "untouched-metadata-changed"}
+            if "raised" in info:
+                cls["kind"] = "raised"
+            ctx.fail(cls, {"stream": "edits", "edit_case": case}, "; ".join(problems)[:1500])
+
+
 # ---------------------------------------------------------------------------------------------------
 
 def replay(rep):
@@ -970,6 +1084,25 @@ def replay(rep):
         print(json.dumps(rep, indent=1)[:6000])
         return 1
     case = rep["case"]
+    if case.get("stream") == "edits":
+        import tempfile
+        import shutil
+        from harness import c10_edits as E
+        C.use_shadow()
+        tmp = tempfile.mkdtemp(prefix="verif-C10-replay-", dir="/tmp")
+        try:
+            pq = C.Pqref()
+            problems, info = E.run_case(case["edit_case"], tmp, pq, "replay")
+            pq.close()
+            print("edit path %s on a foreign-style footer (%s), update %r" % (
+                case["edit_case"]["edit"], ", ".join(k for k, v in case["edit_case"]["decor"].items() if v), case["edit_case"]["update"]))
+            for pr in problems:
+                print("PROPERTY FAILS:", pr)
+            if not problems:
+                print("ok: everything the edit did not name is preserved")
+            return 1 if problems else 0
+        finally:
+            shutil.rmtree(tmp, ignore_errors=True)
     if case.get("stream") == "written-files":
         import tempfile
         import shutil
@@ -977,6 +1110,7 @@ def replay(rep):
         tmp = tempfile.mkdtemp(prefix="verif-C10-replay-", dir="/tmp")
         try:
             pq = C.Pqref()
+            ENUMS.update(T.load_idl()[0])
             problems, counts = check_written(case["file"], tmp, pq, "replay")
             pq.close()
             print("wrote %r; strict IDL-typed parse of %d footer(s), %d page header(s)" % (case["file"], counts["footer"], counts["page_header"]))
